@@ -228,6 +228,9 @@ func specLabels(s *rt.Spec) []string {
 	if s.InstrumentD {
 		l = append(l, "instrumentD")
 	}
+	if s.AutoInstr {
+		l = append(l, "auto-instrument")
+	}
 	if s.COE != "" {
 		l = append(l, "coe:"+s.COE)
 	}
@@ -587,6 +590,9 @@ func TestBin(t *testing.T) {
 	rapid.Check(t, func(rt_ *rapid.T) {
 		p := GenPackage(rt_, o, nfiles, perFile)
 		p.Twin = prop == "C20"
+		if prop != "C20" && (uniform(rt_, "autoinstr", 4) == 0 || os.Getenv("FORCE_AUTO") != "") {
+			p.AutoInstr = true
+		}
 		oc := runCase(p, prop, *flagScn, race, fmt.Sprint(*flagShard), "")
 		if oc.inconclusive != "" {
 			if *flagOut != "" {
